@@ -288,12 +288,15 @@ def shard_remove(args):
                         acc.failure("C14:shared_atts_not_shared", case, "reports %r=%r but %r has %r" % (k, v, c, a))
                         break
         # copy_with_new_str on uniformly formatted values
-        if len(spec) >= 1 and len({a for _, a in spec}) == 1:
+        nonempty = [a for t, a in spec if t]
+        uniform = (len(set(nonempty)) == 1) if nonempty else (len(spec) >= 1 and len({a for _, a in spec}) == 1)
+        if uniform:
+            the_atts = nonempty[0] if nonempty else spec[0][1]
             for new in ("", "Q", "QR\n"):
                 case = {"f": C.show_spec(spec), "op": "copy_with_new_str", "new": new}
                 acc.case(bool(new), key=("cs", spec, new), sample=case)
                 acc.transitions += 1
-                a = C.norm_atts(dict(spec[0][1]))
+                a = C.norm_atts(dict(the_atts))
                 try:
                     got = C.cells(f.copy_with_new_str(new))
                 except Exception as ex:  # noqa
@@ -303,6 +306,51 @@ def shard_remove(args):
                     acc.failure("C14:copy_with_new_str_result", case, "got %r" % (got,))
         if C.snapshot(f) != snap:
             acc.failure("C14:base_changed", {"f": C.show_spec(spec)}, "")
+    return acc.export()
+
+
+def shard_helpers_with_keywords(args):
+    """fmtfuncs helpers called with an extra keyword, interleaved with bare calls of the same helper: the result of a call must not
+    depend on earlier calls (module-level caches), and equals the single-call spelling."""
+    tier, seed, idx = args
+    import curtsies.fmtfuncs as ff
+    from curtsies.formatstring import fmtstr
+
+    acc = Acc(seed=seed)
+    helpers = [("fg", c) for c in C.COLORS] + [("bg", c) for c in C.COLORS] + [(st, True) for st in C.STYLE_NAMES]
+    extras = [{"bold": True}, {"underline": True}, {"bg": "cyan"}, {"fg": "yellow"}, {"invert": False}, {"bold": True, "bg": 41}]
+    bases = ["x", fmtstr("yz", "green"), fmtstr("p", "blue", "italic") + fmtstr("q")]
+    for hi in range(idx, len(helpers), 4):
+        kind, value = helpers[hi]
+        name = value if kind == "fg" else ("on_" + value if kind == "bg" else kind)
+        fn = getattr(ff, name)
+        own = {kind: model_value(kind, value)}
+        for rounds in range(2):
+            for extra in extras:
+                if kind in extra:
+                    continue
+                for base in bases:
+                    bc = C.cells(base)
+                    for which in ("with_keyword", "bare"):
+                        spec = dict(own)
+                        kw = {}
+                        if which == "with_keyword":
+                            kw = dict(extra)
+                            spec.update({k: (model_value(k, v) if k in ("fg", "bg") and isinstance(v, str) else v) for k, v in extra.items()})
+                        want = apply_model(bc, spec)
+                        case = {"helper": name, "keywords": kw, "base": repr(base), "round": rounds}
+                        acc.case(True, key=("hk", name, tuple(sorted(kw.items())), repr(base), rounds, which), sample=case)
+                        acc.transitions += 1
+                        try:
+                            r = fn(base, **kw)
+                            got = C.cells(r)
+                        except Exception as ex:  # noqa
+                            acc.failure("C14:apply_raises:" + type(ex).__name__, case, repr(ex))
+                            continue
+                        if got != want:
+                            acc.failure("C14:helper_result_depends_on_earlier_calls" if which == "bare" else "C14:apply_result", case, "got %r expected %r" % (got, want))
+                        elif displayed(r) != want:
+                            acc.failure("C14:apply_display", case, "shows %r expected %r" % (displayed(r), want))
     return acc.export()
 
 
@@ -350,6 +398,20 @@ def invalid_catalogue():
     return cat
 
 
+def invalid_helper_catalogue():
+    """(label, helper name, args, kwargs): contradictory specifications given through the fmtfuncs helpers."""
+    return [
+        ("helper colour + fg keyword", "red", (), {"fg": "blue"}),
+        ("helper colour + fg number", "red", (), {"fg": 34}),
+        ("helper colour + positional colour", "red", ("blue",), {}),
+        ("helper background + bg keyword", "on_gray", (), {"bg": 42}),
+        ("helper background + bg name", "on_blue", (), {"bg": "red"}),
+        ("helper background + positional background", "on_blue", ("on_red",), {}),
+        ("helper + unknown keyword", "bold", (), {"colour": "red"}),
+        ("helper + unknown positional", "underline", ("reddish",), {}),
+    ]
+
+
 def wrong_case_catalogue():
     """Wrong-case names must either work (give the lower-case meaning) or raise ValueError."""
     return [
@@ -375,6 +437,21 @@ def check_invalid(acc):
                 acc.failure("C14:invalid_spec_raises_other:" + type(ex).__name__, case, repr(ex))
                 continue
             acc.failure("C14:invalid_spec_accepted", case, "returned %r" % (r,))
+    import curtsies.fmtfuncs as ff
+
+    for label, helper, args, kw in invalid_helper_catalogue():
+        case = {"invalid": label, "helper": helper, "args": repr(args), "kw": repr(kw)}
+        acc.case(True, key=("invh", label), sample=case)
+        acc.transitions += 1
+        try:
+            r = getattr(ff, helper)("x", *args, **dict(kw))
+        except ValueError:
+            acc.outcome("ValueError")
+            continue
+        except Exception as ex:  # noqa
+            acc.failure("C14:invalid_spec_raises_other:" + type(ex).__name__, case, repr(ex))
+            continue
+        acc.failure("C14:invalid_spec_accepted", case, "returned %r" % (r,))
     for name, meaning in wrong_case_catalogue():
         case = {"invalid": "wrong case", "args": repr((name,))}
         acc.case(True, key=("wc", name), sample=case)
@@ -400,6 +477,8 @@ def run(ctx):
         rep.merge(d, "pairs_and_triples")
     for d in ctx.pmap(shard_remove, [(ctx.tier, ctx.seed, i) for i in range(16)]):
         rep.merge(d, "remove_shared_copy")
+    for d in ctx.pmap(shard_helpers_with_keywords, [(ctx.tier, ctx.seed, i) for i in range(4)]):
+        rep.merge(d, "helpers_with_keywords")
     acc = Acc(seed=ctx.seed)
     check_invalid(acc)
     rep.merge(acc, "invalid_catalogue")
